@@ -23,6 +23,8 @@ def tokenize(text):
         elif text.startswith("//", i):
             j = text.find("\n", i)
             j = n if j < 0 else j
+            if j > i and text[j - 1] == "\r" and j < n:
+                j -= 1                      # the CR of a CRLF line end is not part of the comment
             out.append((i, text[i:j], True))
             i = j
         elif text.startswith("/*", i):
@@ -203,14 +205,14 @@ def render_item(it):
 EMITTING = ("tok", "str", "kept", "def", "undef", "undefall")
 
 
-def render_file(items, blank=" "):
-    """Renders the items, filling off/ln/ln2/ts/to. Returns the text."""
+def render_file(items, blank=" ", nl="\n"):
+    """Renders the items, filling off/ln/ln2/ts/to. Returns the text.  nl: how a line break item is written (LF / CRLF)."""
     out = []
     pos_b = 0
     line = 1
     prev = None
     for it in items:
-        t = render_item(it)
+        t = render_item(it) if it["k"] != "nl" else nl
         if prev is not None and prev["k"] != "nl" and it["k"] != "nl" and not prev["g"]:
             out.append(blank)
             pos_b += len(blank.encode())
